@@ -75,6 +75,7 @@ func checkC12(w *World, r *Report) {
 	r.Rule("C12.fields", "P8", "every field of each module's GenesisState is assigned in ExportGenesis (from keeper state) and read on the InitGenesis tree", 8)
 	r.Rule("C12.validate", "P5", "each module's ValidateGenesis reaches GenesisState.Validate, which reaches the Validate of the parameters and of every element type that has one", 8)
 	r.Rule("C12.lossless", "P8", "the unit conversion applied on export has its inverse applied on import: every unit UnitsFromDuration can return is handled by DurationFromUnits with the same factor", 4)
+	r.Rule("C12.verbatim", "P4,P6", "InitGenesis stores the genesis data as given: no field of the GenesisState parameter, or of a local copy of a part of it, is assigned (no default-filling, reset or normalisation on import)", 4)
 	r.Rule("C12.getall", "P5", "closed world: every keeper function that lists a store prefix with an iterator (the getters behind ExportGenesis, the summaries and the block routines) appends the decoded record in every iteration and never leaves the loop early", 5)
 	r.Rule("C12.accepts", "P4,P8", "inventory of rejecting conditions of each module's genesis validation: a condition on the Params.Validate tree is discharged because every stored parameter set passed that validation (C13.validated); every other one must be in the reviewed table (27 entries, one reason each: why no state written at run time meets it); a new, unreviewed rejecting condition is reported - a validator stricter than the runtime makes an exported genesis un-importable", 60)
 	r.Rule("C12.sameshape", "P7", "a record has two accepted shapes when export nils out a pointer field that the runtime keeps non-nil (the burn state's Account): on the block trees no effectful call may be reachable for one shape and unreachable for the other, i.e. effects must not be control-dependent on the nil-ness of that field", 1)
@@ -303,6 +304,8 @@ func checkC12(w *World, r *Report) {
 		_, b := initReach[to]
 		r.Check(a && b, "C12.lossless", "export applies UnitsFromDuration, import applies DurationFromUnits", w.Pos(from.Pos()), "both on their trees", "the conversions are not paired on the export / import trees")
 	}
+	// ---------- C12.verbatim ----------
+	checkVerbatim(w, r, "C12.verbatim", flatten(ro.INIT))
 	// ---------- C12.getall ----------
 	checkGetAll(w, r, "C12.getall", append(append(flatten(ro.EXPORT), flatten(ro.BLK)...), flatten(ro.QRY)...))
 	// ---------- C12.accepts ----------
